@@ -74,6 +74,22 @@ func (p *Prog) statusTransitions() ([]transition, error) {
 			tr := transition{call: call, fn: fn, cas: o == try, to: to}
 			if tr.cas {
 				from, ok := VariadicInts(args[1])
+				if phi, isPhi := args[1].(*ssa.Phi); !ok && isPhi {
+					// the source list is chosen as a value (`src := []int32{A, B}; if flag { src = []int32{C} }`):
+					// the CAS may start from any member of any of the lists
+					all := true
+					var union []int64
+					for _, e := range phi.Edges {
+						vs, okE := VariadicInts(e)
+						if !okE {
+							all = false
+						}
+						union = append(union, vs...)
+					}
+					if all && len(union) > 0 {
+						from, ok = union, true
+					}
+				}
 				if !ok {
 					// single non-constant source: CAS on a loaded value
 					if sl, isS := args[1].(*ssa.Slice); isS {
